@@ -708,6 +708,45 @@ def check_wholekey(P, R):
     R.floor(rule, "look-ups by length-limited comparison in tzmap.c", n, 1)
 
 
+def check_keyorder(P, R):
+    """the map compiler insists on keys in ascending strcmp order -- bytes compared as unsigned chars; the reader's bisection must
+    order bytes the same way, so wherever it orders two key bytes (relational operator or a difference) both are unsigned chars"""
+    rule = "RF-keyorder"
+    tu = P.tu("libdut_a-tzmap.o")
+    fn = tu.func("tzm_find")
+    if fn is None:
+        raise AnalysisBroken("tzm_find vanished")
+    R.saw(fn)
+
+    def byte_read(e):
+        """-> (is a read of a key byte, spelled type of the value compared)"""
+        cast = None
+        while e is not None and e.get("k") in ("ImplicitCastExpr", "ParenExpr", "CStyleCastExpr") and e.get("c"):
+            if e.get("k") == "CStyleCastExpr" and cast is None:
+                cast = tu.types[e["t"]].get("c") if e.get("t") is not None else None
+            e = e["c"][0]
+        if e is None or not ((e.get("k") == "UnaryOperator" and e.get("op") == "*") or e.get("k") == "ArraySubscriptExpr"):
+            return False, None
+        ty = tu.types[e["t"]].get("c") if e.get("t") is not None else None
+        if ty not in ("char", "const char", "signed char", "unsigned char", "const unsigned char"):
+            return False, None
+        return True, cast or ty
+    n = 0
+    for x in fn.walk():
+        if x.get("k") == "BinaryOperator" and x.get("op") in ("<", ">", "<=", ">=", "-"):
+            (la, lt), (ra, rt) = byte_read(x["c"][0]), byte_read(x["c"][1])
+            if not (la and ra):
+                continue
+            n += 1
+            if "unsigned" in (lt or "") and "unsigned" in (rt or ""):
+                R.ob(rule, "tzm_find line %s: key bytes are ordered as unsigned chars, as the compiler's strcmp order has them" % x.get("l"), True)
+            else:
+                R.finding(rule, fn, "`%s` line %s" % (expr_text(x)[:40], x.get("l")), "two key bytes are ordered as plain (signed) chars while the "
+                          "compiler sorts the keys with strcmp, which compares unsigned chars: a key with a byte above 0x7f sits behind "
+                          "the ASCII keys in the map but the bisection looks for it in front of them and reports it absent", x)
+    R.floor(rule, "orderings of key bytes in tzm_find", n, 2)
+
+
 def check_tzm_format(P, R):
     """the record word: writer  htobe32((off & MASK) << SH)  /  reader  be32toh(word) >> SH  /  validator's byte picture"""
     rule = "RF2-tzm"
@@ -792,6 +831,7 @@ def check(P, R, tier):
     check_tzmap(P, R)
     check_keyend(P, R)
     check_wholekey(P, R)
+    check_keyorder(P, R)
     check_tzm_format(P, R)
     import tzmdecode
     nv = tzmdecode.run(R, P, "RF2-tzmvalid")
